@@ -731,7 +731,7 @@ def run(ctx):
         "copy_to, add(tree), move_to, remove(keep_children), set_data/rename with and without clones). After each step no parent may hold two children "
         "with one data_id (Lean sibUniqueB on the observed state), and whenever the specification refuses with the uniqueness error the implementation must not succeed"
     )
-    ctx.budget_s = 900 if ctx.thorough else 100
+    ctx.budget_s = ctx.budget(900, 100)
     n = 4 if ctx.thorough else 3
     _hist.exhaustive_single_ops(ctx, out, judge, max_nodes=n, alphabet=[0, 1], ops_of=keep_ops, label_limit=None if not ctx.thorough else 12)
     _hist.history_campaign(ctx, out, judge, n_hist=1500 if ctx.thorough else 150, n_steps=80 if ctx.thorough else 25, profiles=PROFILES, labels_sets=SMALL)
